@@ -536,7 +536,7 @@ def corruptions(tr, rng):
 
 # ----------------------------------------------------------------------------------------------- run
 def model_checks(ctx):
-    """All TLC runs of role (M); independent, so they are started together."""
+    """All TLC runs of role (M); independent, so they are started together (ctx.model_check serialises its bookkeeping)."""
     from concurrent.futures import ThreadPoolExecutor
     jobs = []
 
@@ -545,24 +545,18 @@ def model_checks(ctx):
         def model_check(*a, **kw):
             jobs.append((a, kw))
     _model_checks(Q, "quick" if ctx.quick else "thorough")
-    # the TLC processes run concurrently; the bookkeeping of ctx.model_check (not thread safe) is then done
-    # sequentially on the finished results
-    import engine.core as core
-    with ThreadPoolExecutor(max_workers=len(jobs)) as ex:
-        done = list(ex.map(lambda j: run_tlc(j[0][0], j[0][1], workers=4,
-                                             **{k: v for k, v in j[1].items() if k in ("coverage",)}), jobs))
-    cache = {(j[0][0], j[0][1]): r for j, r in zip(jobs, done)}
-    orig = core.run_tlc
-    core.run_tlc = lambda module, cfg, **kw: cache[(module, cfg)]
-    try:
-        res = [ctx.model_check(*a, **kw) for a, kw in jobs]
-    finally:
-        core.run_tlc = orig
+    with ThreadPoolExecutor(max_workers=8) as ex:
+        res = list(ex.map(lambda j: ctx.model_check(*j[0], workers=4, **j[1]), jobs))
     for (a, kw), r in zip(jobs, res):
         if a[1] == "TabularRead_cov.cfg":
             ctx.require_actions(r, ["PlainNext", "MappedNext", "ComputedNext", "JoinedNext", "CsvEmptyChunk", "Exhaust"])
         if a[1] == "TabularWrite_cov.cfg":
             ctx.require_actions(r, ["Initialize", "AppendRows", "AppendRecord", "FlushFull", "FlushDone", "Finalize"])
+    # unbounded: the buffer's row accounting as an inductive invariant (Apalache; any buffer size, any append sequence)
+    from engine import apalache
+    apalache.inductive(ctx, "BufferInd", inv="IndInv", ind_init="IndInit", cinit_mut="ConstInitMut", implies="NothingLost",
+                       note="BufferInd.tla: Init => IndInv, IndInv /\\ Next => IndInv', IndInv => NothingLost for every buffer size and "
+                            "append sequence; the mutant (forced flush forgets the rest) is not inductive")
 
 
 def _model_checks(ctx, t):
